@@ -554,7 +554,8 @@ class C18(Spec):
     technique = ("Lean 4 invariant proof over all schedules of a micro-step model of the five adapters + step-for-step differential replay "
                  "on the real headers under a baton scheduler (exhaustive small schedules, random larger ones)")
     level_text = ("Lean 4 theorems over a micro-step model (one step per operation on the two shared atomics) of callback_await, make_promise, discard, "
-                  "future_conv and call_fn_future_awaiter: for every adapter, outcome, timing (resolved inside the factory, by the registering thread "
+                  "future_conv, call_fn_future_awaiter and the hand-subscribed call_fn_awaiter (callback_await also on awaiter objects / awaiter_wrapper from retrieve_awaiter, "
+                  "await_result read through get / operator* / operator bool / operator!): for every adapter, outcome, timing (resolved inside the factory, by the registering thread "
                   "afterwards, by any number of racing invocations / destructors on other threads) and every schedule the completion runs at most once, "
                   "exactly once at quiescence, sees the operation's outcome, the helper block is released exactly once and only after the completion, a "
                   "refused subscription is completed by the registrar itself, converters deliver convRes(outcome), and a member-object adapter re-armed for any number of "
